@@ -69,11 +69,12 @@ func isRemainingOf(v ssa.Value, pos ssa.Value) bool {
 	return false
 }
 
-// curtailCond: cond (true = curtail) has the form count > Remaining(pos)+K; returns count call, K.
-func curtailCond(cond ssa.Value, pos ssa.Value) (count ssa.Value, k int64, ok bool) {
+// curtailCond: cond has the form count > Remaining(pos)+K (curtailing when true) or its complement
+// count <= Remaining(pos)+K (curtailing when false); returns count call, K and the outcome that curtails.
+func curtailCond(cond ssa.Value, pos ssa.Value) (count ssa.Value, k int64, onTrue bool, ok bool) {
 	op, x, y, isCmp := ssax.CmpOp(cond)
 	if !isCmp {
-		return nil, 0, false
+		return nil, 0, false, false
 	}
 	// normalise to count OP bound
 	bound := func(v ssa.Value) (int64, bool) {
@@ -103,15 +104,19 @@ func curtailCond(cond ssa.Value, pos ssa.Value) (count ssa.Value, k int64, ok bo
 		k = kk
 		op = ssax.Swap(op)
 	} else {
-		return nil, 0, false
+		return nil, 0, false, false
 	}
 	switch op {
 	case token.GTR: // count > R+k
-		return count, k, true
+		return count, k, true, true
 	case token.GEQ: // count >= R+k  ==  count > R+k-1
-		return count, k - 1, true
+		return count, k - 1, true, true
+	case token.LEQ: // !(count <= R+k)  ==  count > R+k
+		return count, k, false, true
+	case token.LSS: // !(count < R+k)  ==  count > R+k-1
+		return count, k - 1, false, true
 	}
-	return nil, 0, false
+	return nil, 0, false, false
 }
 
 func (c *Ctx) ruleR02ab(ra, rb string) {
@@ -165,12 +170,12 @@ func (c *Ctx) ruleR02ab(ra, rb string) {
 			good := false
 			var seenK []string
 			for _, cd := range ssax.DominatingConds(cl.Block()) {
-				k, isC := c.curtailTest(m.Fn, cd.Val, L, P, idx)
+				k, onTrue, isC := c.curtailTest(m.Fn, cd.Val, L, P, idx)
 				if !isC {
 					continue
 				}
-				seenK = append(seenK, fmt.Sprintf("K=%d truth=%v", k, cd.Truth))
-				if !cd.Truth && k <= 1 {
+				seenK = append(seenK, fmt.Sprintf("K=%d curtailing=%v", k, cd.Truth == onTrue))
+				if cd.Truth != onTrue && k <= 1 {
 					good = true
 				}
 			}
@@ -404,25 +409,25 @@ func callDescShort(c *Ctx, call ssa.CallInstruction) string {
 }
 
 // curtailTest recognises count(idx) > Remaining(pos)+K, written in fn itself or in a bool helper called with fn's
-// own context, position and receiver. Returns K.
-func (c *Ctx) curtailTest(fn *ssa.Function, cond ssa.Value, L, P *ssa.Parameter, idx ssa.Value) (int64, bool) {
-	check := func(cond ssa.Value, l, p ssa.Value, sameIdx func(ssa.Value) bool) (int64, bool) {
-		count, k, isC := curtailCond(cond, p)
+// own context, position and receiver. Returns K and the outcome of cond on which the parser curtails.
+func (c *Ctx) curtailTest(fn *ssa.Function, cond ssa.Value, L, P *ssa.Parameter, idx ssa.Value) (int64, bool, bool) {
+	check := func(cond ssa.Value, l, p ssa.Value, sameIdx func(ssa.Value) bool) (int64, bool, bool) {
+		count, k, onTrue, isC := curtailCond(cond, p)
 		if !isC {
-			return 0, false
+			return 0, false, false
 		}
 		get, isGet := isStaticMethod(count, "data", "IntMap", "Get")
 		if !isGet || len(get.Call.Args) != 2 || get.Call.Args[0] != l || !sameIdx(get.Call.Args[1]) {
-			return 0, false
+			return 0, false, false
 		}
-		return k, true
+		return k, onTrue, true
 	}
-	if k, ok := check(cond, L, P, func(v ssa.Value) bool { return sameSource(v, idx) }); ok {
-		return k, true
+	if k, onTrue, ok := check(cond, L, P, func(v ssa.Value) bool { return sameSource(v, idx) }); ok {
+		return k, onTrue, true
 	}
 	h, inner, args, ok := c.boolHelper(cond)
 	if !ok {
-		return 0, false
+		return 0, false, false
 	}
 	var hl, hp ssa.Value
 	recvOK := h.Signature.Recv() == nil
@@ -438,7 +443,7 @@ func (c *Ctx) curtailTest(fn *ssa.Function, cond ssa.Value, L, P *ssa.Parameter,
 		}
 	}
 	if hl == nil || hp == nil {
-		return 0, false
+		return 0, false, false
 	}
 	want := keyDesc(idx)
 	return check(inner, hl, hp, func(v ssa.Value) bool {
